@@ -26,8 +26,8 @@
     awaitedSourceBeforeContinuation  Subscription.Wait() returns after the subscription was torn
                                      down, which follows its terminal callback (subscriber.go:218,240).
 
-  Pinned tree: seven locations fail the predicate (`knownRacy`; two more, shared with C12, were
-  repaired in the repository meanwhile and are no longer excused); each was confirmed with the race
+  Current tree: four locations fail the predicate (`knownRacy`); five more were found, confirmed, repaired
+  in the repository meanwhile and are no longer excused (known_findings.jsonl, `fixed:` lines); each was confirmed with the race
   detector on the real code (harness kind `race`, known_findings.jsonl). The full statement is
   `tableOk [] RoGen.Locksets.table = true`; it is false on the pinned tree (the check names the failing pairs).
 -/
@@ -73,16 +73,16 @@ theorem connectable_subject_witness :
     pairOk { line := 547, write := false, fn := "connectableObservableImpl.ConnectWithContext", ctx := .method, prot := .under [1] }
            { line := 551, write := true, fn := "connectableObservableImpl.ConnectWithContext", ctx := .method, prot := .none } = false := by decide
 
-/-- BufferWithCount: the teardown resets `buffer` (operator_transformations.go:591) while the
-    source callback appends to it (:571); the two contexts are not ordered and neither holds a lock -/
-theorem bufferWithCount_witness :
-    pairOk { line := 571, write := true, fn := "BufferWithCount", ctx := .sourceCb 567 false, prot := .sameSequentialSource }
-           { line := 591, write := true, fn := "BufferWithCount", ctx := .teardown, prot := .subscribeBodyBeforeTeardown } = false := by decide
+/-- ObserveOn / SubscribeOn (detachOn), ToChannel: the teardown closes the hand-off channel
+    (write of its open/closed state, operator_utility.go:585) while a source callback may be
+    sending on it (read, :597); the two contexts are not ordered and neither holds a lock -/
+theorem handoff_close_witness :
+    pairOk { line := 597, write := false, fn := "detachOn", ctx := .sourceCb 593 false, prot := .sameSequentialSource }
+           { line := 585, write := true, fn := "detachOn", ctx := .teardown, prot := .subscribeBodyBeforeTeardown } = false := by decide
 
-/-- GroupBy: the teardown overwrites the sync.Map (plain write, :385) that the callbacks use through its methods (atomic, :356) -/
-theorem groupBy_witness :
-    pairOk { line := 356, write := true, fn := "GroupByIWithContext", ctx := .sourceCb 349 false, prot := .atomic }
-           { line := 385, write := true, fn := "GroupByIWithContext", ctx := .teardown, prot := .subscribeBodyBeforeTeardown } = false := by decide
+/-- what the repaired GroupBy looks like: teardown and callbacks only call sync.Map methods -/
+example : pairOk { line := 365, write := true, fn := "GroupByIWithContext", ctx := .sourceCb 358 false, prot := .atomic }
+                 { line := 345, write := true, fn := "GroupByIWithContext", ctx := .teardown, prot := .atomic } = true := by decide
 
 -- non-vacuity of the rules: each accepts the situation it is named after and nothing weaker
 example : pairOk { line := 1, write := true, fn := "f", ctx := .body, prot := .initBeforePublication }
@@ -109,5 +109,4 @@ end Ro.C13
 #print axioms Ro.C13.table_ok
 #print axioms Ro.C13.table_race_free_partial
 #print axioms Ro.C13.connectable_subject_witness
-#print axioms Ro.C13.bufferWithCount_witness
-#print axioms Ro.C13.groupBy_witness
+#print axioms Ro.C13.handoff_close_witness
